@@ -350,6 +350,91 @@ fn main() {
             ctx.sample(json!({"phase": "random", "a": model_json(&a), "b": model_json(&b)}));
         }
     });
+    // ---- typed chains: one reused Delta on the sending side, two reused destination
+    // Snap objects on the receiving side (as Storage and the demo reader do)
+    let n = ctx.volume(300, 20_000, 2, 30);
+    ctx.run_cases("typed-chain", n, |ctx, _i, rng| typed_chain(ctx, rng));
     ctx.disarm();
     ctx.finish();
+}
+
+/// Item sizes of the typed worlds are free, so every size travels on the wire.
+fn no_size(_: u16) -> Option<u32> {
+    None
+}
+
+fn typed_chain(ctx: &mut Ctx, rng: &mut Rng) {
+    use libtw2_snapshot::snap::Builder;
+    use libtw2_snapshot::Snap;
+    use verif_harness::snapgen::{build_typed, gen_typed, typed_of, Typed};
+    let steps = rng.range(3, 7) as usize;
+    let r = catch(|| -> Result<usize, (String, String)> {
+        let mut sender_delta = Delta::new();
+        let mut wire_delta = Delta::new();
+        let mut dst = [Snap::empty(), Snap::empty()];
+        let mut prev_model = Typed::new();
+        let mut prev = Snap::empty();
+        let mut prev_at_receiver = Snap::empty();
+        let mut done = 0;
+        for i in 0..steps {
+            // the next world: a fresh draw, or the previous one with items dropped / changed
+            let (mut m, mut order) = gen_typed(rng);
+            if rng.bool() && !prev_model.is_empty() {
+                for (k, d) in &prev_model {
+                    if rng.chance(2, 3) && !m.contains_key(k) && m.len() < 900 {
+                        let d2: Vec<i32> = d.iter().map(|x| if rng.bool() { x.wrapping_add(1) } else { *x }).collect();
+                        m.insert(*k, d2);
+                        order.push(*k);
+                    }
+                }
+            }
+            // one object keeps its size from one snapshot to the next (self-created
+            // snapshots: `Delta::create` documents this as its precondition)
+            for (k, d) in m.iter_mut() {
+                if let Some(p) = prev_model.get(k) {
+                    d.resize(p.len(), 0);
+                }
+            }
+            if m.len() > 400 {
+                // keep chains cheap
+                let keep: Vec<_> = order.iter().take(400).cloned().collect();
+                m.retain(|k, _| keep.contains(k));
+                order = keep;
+            }
+            // numbering consistent with the predecessor, as Storage::new_builder does
+            let builder = if i == 0 { Builder::new() } else { prev.clone().recycle() };
+            let cur = match build_typed(&order, &m, builder) {
+                Ok(s) => s,
+                Err(_) => break, // over the limits together with the inherited registry: stop the chain
+            };
+            if typed_of(&cur) != m {
+                return Err(("typed-chain-build".into(), format!("step {}", i)));
+            }
+            sender_delta.create(&prev, &cur);
+            // through the wire
+            let mut bytes: Vec<u8> = Vec::with_capacity(300_000);
+            with_packer(&mut bytes, |p| sender_delta.write(no_size, p).map(|_| ())).map_err(|_| ("typed-chain-write".to_string(), "capacity".to_string()))?;
+            let mut w = Warnings::new();
+            wire_delta.read(&mut w, no_size, &mut Unpacker::new(&bytes)).map_err(|e| ("typed-chain-read".to_string(), format!("step {}: {:?}", i, e)))?;
+            let d = &mut dst[i % 2];
+            d.read_with_delta(&mut w, &prev_at_receiver, &wire_delta).map_err(|e| ("typed-chain-apply".to_string(), format!("step {}: {:?}", i, e)))?;
+            if typed_of(d) != m || d.crc() != cur.crc() || d.items().len() != m.len() {
+                return Err(("typed-chain-apply".into(), format!("step {}: result differs ({} vs {} items)", i, d.items().count(), m.len())));
+            }
+            if !w.is_empty() {
+                return Err(("typed-chain-warning".into(), format!("step {}: {:?}", i, w.0)));
+            }
+            prev_at_receiver = d.clone();
+            prev = cur;
+            prev_model = m;
+            done += 1;
+        }
+        Ok(done)
+    });
+    match r {
+        Err(p) => ctx.panic_violation("typed chain", "reused-delta-and-destinations", &p, json!({"steps": steps})),
+        Ok(Err((stage, what))) => ctx.violation("delta-apply", &stage, "typed|reused-objects", json!({"difference": what}), json!({"steps": steps})),
+        Ok(Ok(done)) => ctx.count("typed_chain_steps", done as u64),
+    }
+    ctx.case(Some(rng.u64()));
 }
